@@ -185,11 +185,15 @@ impl<'a> Machine<'a> {
                                 V::N(_, x) => x,
                                 _ => return Err(TYPE_MISMATCH),
                             };
+                            // the step is converted to the counter's type when the loop is entered (Overflow if it does not fit)
                             let st = match step {
-                                Some(e) => match self.eval(cur_fx, e)? {
-                                    V::N(_, x) => x,
-                                    _ => return Err(TYPE_MISMATCH),
-                                },
+                                Some(e) => {
+                                    let v = self.eval(cur_fx, e)?;
+                                    match conv(&v, ty)? {
+                                        V::N(_, x) => x,
+                                        _ => return Err(TYPE_MISMATCH),
+                                    }
+                                }
                                 None => 1.0,
                             };
                             if st == 0.0 {
@@ -223,10 +227,9 @@ impl<'a> Machine<'a> {
                                 .get(id)
                                 .ok_or(RErr::Inexact("jump into a FOR body".into()))?;
                             let cur = self.load(cur_fx, var)?;
-                            // add in the wider of the counter's and the step's type, store in the counter's type
-                            let stv = V::N(if st.fract() == 0.0 && fits(Ty::Int, st) { Ty::Int } else { Ty::Double }, st);
+                            // counter and step have the counter's type: the sum must fit it
                             let sum = match &cur {
-                                V::N(t, _) => conv(&binop(BinOp::Add, &cur, &stv)?, *t)?,
+                                V::N(t, _) => conv(&binop(BinOp::Add, &cur, &V::N(*t, st))?, *t)?,
                                 _ => return Err(TYPE_MISMATCH),
                             };
                             self.store_raw(cur_fx, var, sum)?;
